@@ -210,6 +210,65 @@ def cond_atoms(c, out=None):
 
 
 # ------------------------------------------------------------------ state / events
+def negate_fact(f):
+  if f[0] == "truthy":
+    return ("falsy", f[1])
+  if f[0] == "falsy":
+    return ("truthy", f[1])
+  if f[0] == "square":
+    return ("nonsquare", f[1])
+  if f[0] == "nonsquare":
+    return ("square", f[1])
+  if f[0] == "cmp":
+    return ("cmp", NEG[f[1]], f[2], f[3])
+  if f[0] == "opaque":
+    return ("opaque", f[1], not f[2])
+  return None
+
+
+def contradicts(facts, new):
+  """Is one of the new facts the literal negation of a known fact (infeasible branch)?"""
+  if not new:
+    return False
+  keys = {repr(f) for f in facts}
+  for f in new:
+    nf = negate_fact(f)
+    if nf is not None and repr(nf) in keys:
+      return True
+    if f[0] == "cmp" and f[1] in ("Is", "Eq") and isinstance(f[3], Const) and f[3].v is None:
+      # x is None contradicts truthy(x)
+      if repr(("truthy", f[2])) in keys:
+        return True
+  return False
+
+
+def _truthiness(v, st):
+  """True / False when value v is definitely truthy / falsy in state st, else None."""
+  if isinstance(v, Const):
+    return bool(v.v)
+  if isinstance(v, Seq):
+    return bool(v.items)
+  if isinstance(v, Poly):
+    i = v.as_int()
+    if i is not None:
+      return i != 0
+    for f in st.facts:
+      if f[0] in ("truthy", "falsy") and isinstance(f[1], Poly) and f[1] == v:
+        return f[0] == "truthy"
+  return None
+
+
+def _mentions_loop_syms(v, head, pre):
+  """Does value v mention atoms created for this loop's iteration (not present before the loop)?"""
+  if not isinstance(v, Poly):
+    return False
+  pre_atoms = set()
+  for x in pre.env.values():
+    if isinstance(x, Poly):
+      pre_atoms |= x.all_atoms()
+  return any(a.kind in ("sym", "bv") and a not in pre_atoms for a in v.all_atoms())
+
+
 class State:
   __slots__ = ("env", "facts", "pc", "last_rhs", "depth", "tags", "trace")
 
@@ -841,10 +900,12 @@ class Walker:
         return
       s1 = st.fork()
       s1.assume(c, True, n)
-      yield from self.block(n.body, s1)
+      if not contradicts(st.facts, s1.facts[len(st.facts):]):
+        yield from self.block(n.body, s1)
       s2 = st.fork()
       s2.assume(c, False, n)
-      yield from self.block(n.orelse, s2)
+      if not contradicts(st.facts, s2.facts[len(st.facts):]):
+        yield from self.block(n.orelse, s2)
     elif isinstance(n, (ast.For, ast.While)):
       yield from self.loop(n, st)
     elif isinstance(n, ast.With):
@@ -899,17 +960,19 @@ class Walker:
       if rhs is not None and v in st.env and isinstance(st.env[v], Poly):
         cands[v] = rhs
     k = self.sym("k")   # abstract iteration index
-    def head_state(hyps):
+    def head_state(hyps, thyps):
       h = st.fork()
       h.tags.append(("loop", id(n)))
       for v in mod:
-        if v in h.env or True:
-          h.env[v] = self.sym(v)
+        h.env[v] = self.sym(v)
         h.last_rhs.pop(v, None)
       for v, rhs in hyps.items():
         e = self.ev(rhs, h)
         if isinstance(e, Poly):
           h.env[v] = e
+      for v, t in thyps.items():
+        if v not in hyps:
+          h.facts.append(("truthy" if t else "falsy", h.env[v]))
       if is_for:
         self.bind_iter_target(n.target, itv, h, k, n)
       else:
@@ -917,12 +980,19 @@ class Walker:
         h.assume(c, True, n)
       return h
     hyps = dict(cands)
-    while hyps:
+    # truthiness invariants: a variable that is definitely falsy/truthy before the loop
+    thyps = {}
+    for v in sorted(mod):
+      if v in st.env:
+        t = _truthiness(st.env[v], st)
+        if t is not None:
+          thyps[v] = t
+    while hyps or thyps:
       self.quiet += 1
       try:
-        h = head_state(hyps)
+        h = head_state(hyps, thyps)
         bad = set()
-        sub_events = len(self.events)
+        tbad = set()
         for kind, val, s in self.block(n.body, h):
           if kind in ("fall", "continue"):
             for v, rhs in hyps.items():
@@ -930,25 +1000,35 @@ class Walker:
               have = s.env.get(v)
               if not (isinstance(want, Poly) and isinstance(have, Poly) and (want - have).is_zero()):
                 bad.add(v)
+            for v, t in thyps.items():
+              have = s.env.get(v)
+              if have is None or _truthiness(have, s) is not t:
+                tbad.add(v)
       finally:
         self.quiet -= 1
-      if not bad:
+      if not bad and not tbad:
         break
       for v in bad:
         hyps.pop(v)
+      for v in tbad:
+        thyps.pop(v)
     self.invariants[id(n)] = {v: ast.unparse(r) for v, r in hyps.items()}
     info["invariants"] = dict(self.invariants[id(n)])
-    h = head_state(hyps)
+    info["truthiness_invariants"] = dict(thyps)
+    h = head_state(hyps, thyps)
     self.emit("loophead", n, h, k=k, iter=itv, modified=sorted(mod))
     exits = []
+    ends = []   # states at the end of an iteration (fall/continue): candidates for the final values
     since = len(h.trace)
     info["pre_state"] = st
     visit = {"pre": st, "head": h, "k": k, "iter": itv, "hyps": dict(hyps), "since": since}
-    info.setdefault("visits", []).append(visit)
-    body_paths = info.setdefault("body_paths", [])
+    if not self.quiet:
+      info.setdefault("visits", []).append(visit)
+    body_paths = info.setdefault("body_paths", []) if not self.quiet else []
     for kind, val, s in self.block(n.body, h):
       body_paths.append((kind, val, s, since, visit))
       if kind in ("fall", "continue"):
+        ends.append(s)
         continue
       if kind == "break":
         s.tags = list(st.tags)
@@ -964,6 +1044,20 @@ class Walker:
       e = self.ev(rhs, after)
       if isinstance(e, Poly):
         after.env[v] = e
+    # refinement: a variable that is falsy (resp. truthy / identical) before the loop and at the end
+    # of every iteration is so after normal termination
+    for v in mod:
+      if v in hyps or v not in st.env:
+        continue
+      cands = [(st.env[v], st)] + [(s2.env.get(v), s2) for s2 in ends]
+      if any(c is None for c, _ in cands):
+        continue
+      if all(repr(c) == repr(cands[0][0]) for c, _ in cands) and not _mentions_loop_syms(cands[0][0], h, st):
+        after.env[v] = cands[0][0]
+        continue
+    for v, t in thyps.items():
+      if v not in hyps and isinstance(after.env.get(v), Poly) and after.env[v].as_atom() is not None:
+        after.facts.append(("truthy" if t else "falsy", after.env[v]))
     if not is_for:
       c = self.cond(n.test, after)
       has_break = bool(exits)
